@@ -144,7 +144,7 @@ class Executor:
         self.solver.push()
         if extra:
             self.solver.add(*extra)
-        r = hard_check(self.solver, limit if limit is not None else self.hard_limit)
+        r = self.solver.check()
         m = self.solver.model() if r == z3.sat else None
         self.solver.pop()
         self.queries += 1
